@@ -1,6 +1,5 @@
-\* E03 quick: N=3 tasks, one change; chain and fork graphs x 6 boundary markings x classic/core;
-\* one handler failure (undo direction), two restart-manager calls, one snapd restart without reboot and one
-\* reboot (at points where no handler is in flight).
+\* E03 thorough: one user abort (Change.Abort) anywhere; chain, fork and "2 waits for 1, 3 independent" graphs;
+\* types system and system-now. The known Change.Abort panic (C03) is reachable here: panicked states are terminal.
 SPECIFICATION MCRSpec
 CONSTANTS
   N = 3
@@ -10,13 +9,13 @@ CONSTANTS
   MaxWaitRes = 0
   MaxTime = 1
   MaxRestart = 1
-  MaxAbort = 0
+  MaxAbort = 1
   MaxBoot = 2
   MaxCalls = 2
   BoundaryChoices <- BoundQuick
   ClassicChoices <- BoolBoth
-  TypeChoices <- TypesSys
-  DagChoices <- ChainFork
+  TypeChoices <- TypesSysNow
+  DagChoices <- ChainForkSide
   BootAnywhere = FALSE
 VIEW RView
 INVARIANTS TypeOK RTypeOK I_E03a I_E03b I_E03c I_E03d I_E03e PanicOnlyByAbort
